@@ -14,33 +14,33 @@ Lemma gv_set_conds st c : gv (set_conds st c) = gv st. Proof. reflexivity. Qed.
 Lemma gv_set_flows st f : gv (set_flows st f) = gv st. Proof. reflexivity. Qed.
 Lemma gv_upd_rout st rid f : gv (upd_rout st rid f) = gv st.
 Proof. unfold upd_rout. destruct (nth_error (x_routs st) rid); reflexivity. Qed.
-Lemma gv_sched rt st T w : gv (x_sched rt st T w) = gv st.
+Lemma gv_sched dd rt st T w : gv (x_sched dd rt st T w) = gv st.
 Proof. unfold x_sched. destruct (nth_error (x_routs st) w); reflexivity. Qed.
-Lemma gv_sched_all rt T ws : forall st, gv (x_sched_all rt st T ws) = gv st.
+Lemma gv_sched_all dd rt T ws : forall st, gv (x_sched_all dd rt st T ws) = gv st.
 Proof.
   unfold x_sched_all. induction ws as [|w ws IH]; intros st; simpl; auto.
   rewrite IH. apply gv_sched.
 Qed.
 
 Section Prims.
-  Context (gen : Z -> list Z -> Z -> Z) (rt : option Z) (p : xprog).
+  Context (gen : Z -> list Z -> Z -> Z) (dd : bool) (rt : option Z) (p : xprog).
   Lemma gv_send st rid k T lat es : gv (fst (x_send rt st rid k T lat es)) = gv st.
   Proof. reflexivity. Qed.
-  Lemma gv_play st rid k T b c : gv (fst (x_play rt p st rid k T b c)) = gv st.
+  Lemma gv_play st rid k T b c : gv (fst (x_play dd rt p st rid k T b c)) = gv st.
   Proof.
     unfold x_play. destruct (nth_error (xp_bodies p) b); auto.
     destruct (clock_ok (n_tcs (x_n st)) c && clock_ok_mode rt c); reflexivity.
   Qed.
   Lemma gv_tempo st rid k T i v : gv (fst (x_tempo rt st rid k T i v)) = gv st.
   Proof. reflexivity. Qed.
-  Lemma gv_signal st T c : gv (fst (x_signal rt st T c)) = gv st.
+  Lemma gv_signal st T c : gv (fst (x_signal dd rt st T c)) = gv st.
   Proof.
     unfold x_signal. destruct (nth_error (x_conds st) c) as [[t ws]|]; auto.
     destruct t; auto. simpl. rewrite gv_sched_all. reflexivity.
   Qed.
   Lemma gv_settest st c t : gv (fst (x_settest st c t)) = gv st.
   Proof. unfold x_settest. destruct (nth_error (x_conds st) c) as [[t' ws]|]; reflexivity. Qed.
-  Lemma gv_flowset st T f v : gv (fst (x_flowset rt st T f v)) = gv st.
+  Lemma gv_flowset st T f v : gv (fst (x_flowset dd rt st T f v)) = gv st.
   Proof.
     unfold x_flowset. destruct (nth_error (x_flows st) f) as [[[x|] ws]|]; auto.
     simpl. rewrite gv_sched_all. reflexivity.
@@ -50,7 +50,7 @@ Section Prims.
     unfold x_pause. destruct (latest b (x_routs st)); auto. destruct (Nat.eqb n rid); auto.
     simpl. apply gv_upd_rout.
   Qed.
-  Lemma gv_resume st rid T b : gv (fst (x_resume rt st rid T b)) = gv st.
+  Lemma gv_resume st rid T b : gv (fst (x_resume dd rt st rid T b)) = gv st.
   Proof.
     unfold x_resume. destruct (latest b (x_routs st)); auto. destruct (Nat.eqb n rid); auto.
     destruct (nth_error (x_routs st) n); auto. destruct (xr_st x); auto.
@@ -65,7 +65,7 @@ Section Prims.
   Hypothesis Pread : forall st rid k f, P (gv st) -> P (gv (fst (x_flowread st rid k f))).
 
   Lemma xrun_gv : forall acts st rid k T cclk st' oc,
-    xrun gen rt p st rid k T cclk acts = (st', oc) -> P (gv st) -> P (gv st').
+    xrun gen dd rt p st rid k T cclk acts = (st', oc) -> P (gv st) -> P (gv st').
   Proof.
     induction acts as [|a acts IH]; intros st rid k T cclk st' oc H HP.
     - inversion H; subst; auto.
@@ -119,22 +119,22 @@ Section Prims.
 End Prims.
 
 Section Execs.
-  Context (gen : Z -> list Z -> Z -> Z) (p : xprog).
+  Context (gen : Z -> list Z -> Z -> Z) (dd : bool) (p : xprog).
   Context (P : list (Z * list Z) * list vevent -> Prop).
   Hypothesis Pseed : forall st rid s, P (gv st) -> P (gv (fst (x_seed st rid s))).
   Hypothesis Pdraw : forall st rid k req, P (gv st) -> P (gv (fst (x_draw gen st rid k req))).
   Hypothesis Pread : forall st rid k f, P (gv st) -> P (gv (fst (x_flowread st rid k f))).
 
-  Lemma nrt_wake_gv st e : P (gv st) -> P (gv (xnrt_wake gen p st e)).
+  Lemma nrt_wake_gv st e : P (gv st) -> P (gv (xnrt_wake gen dd p st e)).
   Proof.
     intros HP. unfold xnrt_wake.
     destruct (nth_error (x_routs st) (e_rid e)) as [r|]; [|exact HP].
     destruct (xr_st r); try exact HP.
-    match goal with |- context [xrun gen None p ?s ?a ?b ?c ?d ?f] => destruct (xrun gen None p s a b c d f) as [st2 oc] eqn:E end.
+    match goal with |- context [xrun gen dd None p ?s ?a ?b ?c ?d ?f] => destruct (xrun gen dd None p s a b c d f) as [st2 oc] eqn:E end.
     rewrite gv_after by reflexivity.
-    eapply (xrun_gv gen None p P Pseed Pdraw Pread); [exact E|]. exact HP.
+    eapply (xrun_gv gen dd None p P Pseed Pdraw Pread); [exact E|]. exact HP.
   Qed.
-  Lemma nrt_loop_gv fuel : forall st, P (gv st) -> P (gv (xnrt_loop gen p fuel st)).
+  Lemma nrt_loop_gv fuel : forall st, P (gv st) -> P (gv (xnrt_loop gen dd p fuel st)).
   Proof.
     induction fuel as [|f IH]; intros st HP; simpl; auto.
     destruct (n_q (x_n st)) as [|e rest]; auto. apply IH. apply nrt_wake_gv. exact HP.
@@ -144,9 +144,9 @@ Section Execs.
     intros HP. unfold xrt_wake.
     destruct (nth_error (x_routs st) (e_rid e)) as [r|]; [|exact HP].
     destruct (xr_st r); try exact HP.
-    match goal with |- context [xrun gen (Some off) p ?s ?a ?b ?c ?d ?f] => destruct (xrun gen (Some off) p s a b c d f) as [st2 oc] eqn:E end.
+    match goal with |- context [xrun gen true (Some off) p ?s ?a ?b ?c ?d ?f] => destruct (xrun gen true (Some off) p s a b c d f) as [st2 oc] eqn:E end.
     rewrite gv_after by reflexivity.
-    eapply (xrun_gv gen (Some off) p P Pseed Pdraw Pread); [exact E|]. exact HP.
+    eapply (xrun_gv gen true (Some off) p P Pseed Pdraw Pread); [exact E|]. exact HP.
   Qed.
   Lemma rt_step_gv off s ch : P (gv (xs s)) -> P (gv (xs (xrt_step gen off p s ch))).
   Proof.
